@@ -24,6 +24,8 @@ EXTENDS Naturals, Integers, Sequences, FiniteSets, TLC, SequencesExt, FiniteSets
 CONSTANTS NV,            \* development versions are 1..NV (in cascade order)
           StabV,         \* versions that also have a stabilization branch
           HasHf,         \* TRUE: there is also one hotfix branch (a destination on its own, with its own queue)
+          Absent0,       \* branches of the universe (NV, StabV) that do not exist initially
+          Admin,         \* TRUE: the administrative jobs create_branch / delete_branch are available
           Cmds,          \* commands a user may write in a comment: subset of {"reset", "force_reset"}
           Rewrites,      \* TRUE: users may restart (force-push) a source branch and commit on integration branches
           NP,            \* number of user pull requests
@@ -65,22 +67,6 @@ ThirdN   == <<"third", 0, "", 0>>
 Kind(n) == n[1]
 BranchOf(n) == <<n[3], n[4]>>
 
-RECURSIVE CascFrom(_)
-CascFrom(v) == IF v > NV THEN <<>>
-               ELSE (IF v \in StabV THEN <<Stab(v)>> ELSE <<>>) \o <<Dev(v)>> \o CascFrom(v + 1)
-Casc == CascFrom(1)                         \* development / stabilization branches, in inclusion order
-Hf == <<"hf", 0>>
-Branches == {Casc[j] : j \in DOMAIN Casc} \cup (IF HasHf THEN {Hf} ELSE {})
-RECURSIVE DevsFrom(_)
-DevsFrom(v) == IF v > NV THEN <<>> ELSE <<Dev(v)>> \o DevsFrom(v + 1)
-Targets(b) == IF b[1] = "hf" THEN <<b>>          \* a hotfix destination alone
-              ELSE IF b[1] = "stab" THEN <<b>> \o DevsFrom(b[2]) ELSE DevsFrom(b[2])
-MergePaths == {DevsFrom(1)} \cup {Targets(Stab(v)) : v \in StabV}
-Pos(b) == IF b = Hf THEN 0 ELSE CHOOSE j \in DOMAIN Casc : Casc[j] = b     \* the hotfix queue sorts first
-
-Set(f, k, v) == (k :> v) @@ f
-Del(f, K) == [x \in DOMAIN f \ K |-> f[x]]
-
 VARIABLES G,      \* commits: [n, anc : 1..n -> SUBSET 1..n, par : 1..n -> SUBSET 1..n,
                   \*           lab : 1..n -> {"base","user","manual","merge","third"}]
           refs,   \* remote heads: name -> commit
@@ -96,6 +82,26 @@ VARIABLES G,      \* commits: [n, anc : 1..n -> SUBSET 1..n, par : 1..n -> SUBSE
           out     \* JSON projection of the state (only when EmitJson; hidden by VIEW)
 vars == <<G, refs, pr, child, bs, greeted, job, cmd, lastmsg, last, out>>
 View == <<G, refs, pr, child, bs, greeted, job, cmd>>
+
+
+RECURSIVE CascFrom(_)
+CascFrom(v) == IF v > NV THEN <<>>
+               ELSE (IF v \in StabV THEN <<Stab(v)>> ELSE <<>>) \o <<Dev(v)>> \o CascFrom(v + 1)
+Casc == CascFrom(1)                         \* development / stabilization branches, in inclusion order
+Hf == <<"hf", 0>>
+Branches == {Casc[j] : j \in DOMAIN Casc} \cup (IF HasHf THEN {Hf} ELSE {})
+\* the cascade is read from the branches that exist on the remote (BranchCascade.build)
+IsLive(b) == BN(b) \in DOMAIN refs
+RECURSIVE DevsFrom(_)
+DevsFrom(v) == IF v > NV THEN <<>> ELSE (IF IsLive(Dev(v)) THEN <<Dev(v)>> ELSE <<>>) \o DevsFrom(v + 1)
+Targets(b) == IF b[1] = "hf" THEN <<b>>          \* a hotfix destination alone
+              ELSE IF b[1] = "stab" THEN <<b>> \o DevsFrom(b[2]) ELSE DevsFrom(b[2])
+MergePaths == {DevsFrom(1)} \cup {Targets(Stab(v)) : v \in {x \in StabV : IsLive(Stab(x))}}
+TagN(b) == <<"tag", 0, b[1], b[2]>>               \* archive tag left by delete_branch
+Pos(b) == IF b = Hf THEN 0 ELSE CHOOSE j \in DOMAIN Casc : Casc[j] = b     \* the hotfix queue sorts first
+
+Set(f, k, v) == (k :> v) @@ f
+Del(f, K) == [x \in DOMAIN f \ K |-> f[x]]
 
 NoJob == [on |-> FALSE, kind |-> "", arg |-> 0, plan |-> <<>>, status |-> "", rej |-> {}, tp |-> 0]
 
@@ -257,7 +263,8 @@ EvalQueuesPlan(g, r, force) ==
                       THEN mq[BranchOf(n)][1].c ELSE r[n]]
            goneq == {n \in DOMAIN r : Kind(n) = "qw" /\ BranchOf(n) \in DOMAIN mq /\
                                        \E j \in DOMAIN mq[BranchOf(n)] : mq[BranchOf(n)][j].p = n[2]}
-           gonew == UNION {WOf(r, p) : p \in selS}
+           \* close_queued_pull_request: the integration branches of the present cascade
+           gonew == UNION {{WN(p, Targets(pr[p].dst)[j]) : j \in DOMAIN Targets(pr[p].dst)} \cap DOMAIN r : p \in selS}
            loc2 == Del(loc1, goneq \cup gonew)
            notes == [j \in DOMAIN sel |->
                        CommentOp(sel[j], IF Leq(g, r[SrcN(sel[j])], loc1[BN(pr[sel[j]].dst)])
@@ -361,6 +368,8 @@ EvalPrPlan(g, r, p) ==
   IN
   IF P.st = "none" THEN Res(g, <<>>, "NoSuchPr")
   ELSE IF P.st = "merged" THEN Res(g, <<>>, "NothingToDo")
+  \* early_checks: the destination branch is gone
+  ELSE IF BN(P.dst) \notin DOMAIN r THEN Res(g, <<CommentOp(p, "incorrect_destination")>>, "WrongDestination")
   \* handle_comments: a command written after the robot's last message is executed first of all (even on a
   \* held-back or declined pull request); the greeting, when it is still to be posted, comes after the command
   \* and hides it
@@ -370,8 +379,9 @@ EvalPrPlan(g, r, p) ==
   ELSE IF P.after # 0 /\ ~ (pr[P.after].st = "merged" \/ MergedIn(g, r, P.after))
        THEN Res(g, Greet(p) \o <<CommentOp(p, "after_pull_request")>>, "AfterPullRequest")
   ELSE IF P.st = "declined" THEN              \* handle_declined_pull_request
-    LET kids == {b \in Branches : <<p, b>> \in child}
-        ws == WOf(r, p)
+    \* only the integration branches / pull requests of the present cascade are looked at
+    LET kids == {b \in {T[j] : j \in 1..n} : <<p, b>> \in child}
+        ws == {WN(p, T[j]) : j \in 1..n} \cap DOMAIN r
     IN IF kids = {} /\ ws = {} THEN Res(g, Greet(p), "NothingToDo")
        ELSE Res(g, Greet(p) \o [j \in 1..Cardinality(kids) |-> DeclinePrOp(p, SetToSeq(kids)[j])]
                     \o <<PushAllFrom(r, Del(r, ws), TRUE)>>, "PullRequestDeclined")
@@ -455,20 +465,53 @@ DeleteQueuesPlan(g, r) ==
   IF ~ UseQueue THEN Res(g, <<>>, "NotMyJob")
   ELSE IF QRefs(r) = {} THEN Res(g, <<>>, "JobSuccess")
   ELSE Res(g, <<PushAllFrom(r, Del(r, QRefs(r)), TRUE)>>, "JobSuccess")
+\* jobs/create_branch.py
+LastDev == LET d == DevsFrom(1) IN d[Len(d)]
+CreateBranchPlan(g, r, b) ==
+  LET devs == DevsFrom(1)
+      lower == SelectSeq(devs, LAMBDA d : d[2] < b[2])
+      from == IF b[1] = "stab" THEN Dev(b[2]) ELSE IF lower # <<>> THEN lower[Len(lower)] ELSE devs[1]
+      r2 == Set(r, BN(b), r[BN(from)])
+      mk == <<PushOp(r2, {BN(b)})>>
+  IN IF BN(b) \in DOMAIN r THEN Res(g, <<>>, "NothingToDo")
+     ELSE IF TagN(b) \in DOMAIN r THEN Res(g, <<>>, "JobFailure")
+     ELSE IF b[1] = "stab" /\ ~ IsLive(Dev(b[2])) THEN Res(g, <<>>, "JobFailure")
+     \* an older development branch is refused while pull requests are queued
+     ELSE IF UseQueue /\ b[1] = "dev" /\ b[2] < LastDev[2] /\ QueuedPrs(r) # {} THEN Res(g, <<>>, "JobFailure")
+     ELSE IF ~ UseQueue \/ b[1] = "stab" THEN Res(g, mk, "JobSuccess")
+     \* a new development branch: the queues are rebuilt at once (RebuildQueuesJob chained in the same job)
+     ELSE IF QRefs(r) = {} THEN Res(g, mk, "JobSuccess")
+     ELSE [g |-> g, plan |-> mk \o <<PushAllFrom(r2, Del(r2, QRefs(r2)), TRUE)>>, status |-> "JobSuccess",
+           pend |-> QueuedOrder(g, r)]
+\* jobs/delete_branch.py
+TagOp(b, c) == [Op("tag", <<>>, {TagN(b)}, FALSE, 0, b, "") EXCEPT !.loc = (TagN(b) :> c)]
+DeleteBranchPlan(g, r, b) ==
+  IF BN(b) \notin DOMAIN r THEN Res(g, <<>>, "NothingToDo")
+  ELSE IF TagN(b) \in DOMAIN r THEN Res(g, <<>>, "JobFailure")
+  ELSE IF b[1] = "dev" /\ IsLive(Stab(b[2])) THEN Res(g, <<>>, "JobFailure")
+  ELSE IF UseQueue /\ \E p \in 1..NP : QWN(p, b) \in DOMAIN r THEN Res(g, <<>>, "JobFailure")
+  ELSE Res(g, (IF UseQueue /\ QN(b) \in DOMAIN r THEN <<DelRefOp(QN(b))>> ELSE <<>>)
+              \o <<TagOp(b, r[BN(b)]), DelRefOp(BN(b))>>, "JobSuccess")
 ForceMergePlan(g, r) ==
   IF ~ UseQueue THEN Res(g, <<>>, "NotMyJob") ELSE EvalQueuesPlan(g, r, TRUE)
 
 (***************************************************************************)
 (* Initial state                                                           *)
 (***************************************************************************)
-NBase == Len(Casc) + 1 + (IF HasHf THEN 1 ELSE 0)
+\* named values for Absent0 (a configuration file cannot write tuples)
+AbsMid == {Dev(2)}
+AbsMidStab == {Stab(3), Dev(2)}
+AbsStab == {Stab(2)}
+Casc0 == SelectSeq(Casc, LAMBDA b : b \notin Absent0)
+Pos0(b) == CHOOSE j \in DOMAIN Casc0 : Casc0[j] = b
+NBase == Len(Casc0) + 1 + (IF HasHf THEN 1 ELSE 0)
 G0 == [n |-> NBase,
        anc |-> [c \in 1..NBase |-> IF HasHf /\ c = NBase THEN {1, c} ELSE 1..c],
        par |-> [c \in 1..NBase |-> IF c = 1 THEN {} ELSE IF HasHf /\ c = NBase THEN {1} ELSE {c - 1}],
        lab |-> [c \in 1..NBase |-> "base"]]
 Init ==
   /\ G = G0
-  /\ refs = [n \in {BN(b) : b \in Branches} |-> IF BranchOf(n) = Hf THEN NBase ELSE Pos(BranchOf(n)) + 1]
+  /\ refs = [n \in {BN(b) : b \in Branches \ Absent0} |-> IF BranchOf(n) = Hf THEN NBase ELSE Pos0(BranchOf(n)) + 1]
   /\ pr = [p \in 1..NP |-> [st |-> "none", dst |-> Dev(1), appr |-> FALSE, byp |-> FALSE,
                             wait |-> FALSE, nooct |-> FALSE, after |-> 0]]
   /\ child = {}
@@ -607,6 +650,7 @@ AlwaysPost == {"integration_data_created", "partial_merge", "help", "reset_compl
 OpEffect(g, st, rej, op) ==
   IF op.k = "push" THEN LET x == ApplyPush(g, st.refs, rej, op) IN [st EXCEPT !.refs = x.refs, !.fail = x.fail]
   ELSE IF op.k = "pushall" THEN LET x == ApplyPushAll(g, st.refs, rej, op) IN [st EXCEPT !.refs = x.refs, !.fail = x.fail]
+  ELSE IF op.k = "tag" THEN [st EXCEPT !.refs = op.loc @@ @]
   ELSE IF op.k = "delref" THEN (IF op.names \cap rej = {} THEN [st EXCEPT !.refs = Del(st.refs, op.names)]
                                 ELSE [st EXCEPT !.fail = TRUE])
   ELSE IF op.k = "comment" THEN [st EXCEPT !.greeted = IF op.code = "init" THEN @ \cup {op.p} ELSE @,
@@ -656,6 +700,9 @@ JobBegin ==
      \/ UseQueue /\ QRefs(refs) # {} /\ Begin("ForceMerge", 0, ForceMergePlan(G, refs))
      \/ UseQueue /\ QRefs(refs) # {} /\ Begin("RebuildQueues", 0, RebuildPlan(G, refs))
      \/ UseQueue /\ QRefs(refs) # {} /\ Begin("DeleteQueues", 0, DeleteQueuesPlan(G, refs))
+     \/ Admin /\ \E b \in Branches \ {Hf} :
+           \/ ~ IsLive(b) /\ Begin("CreateBranch", b, CreateBranchPlan(G, refs, b))
+           \/ IsLive(b) /\ (b[1] = "dev" => Len(DevsFrom(1)) > 1) /\ Begin("DeleteBranch", b, DeleteBranchPlan(G, refs, b))
 
 ApplyOp ==
   /\ job.on /\ job.plan # <<>>
@@ -747,14 +794,17 @@ Bound == G.n <= MaxC /\ TLCGet("level") <= MaxLevel
 (* Design-level properties                                                 *)
 (***************************************************************************)
 DestNames == {BN(b) : b \in Branches}
-InclPairs == {<<Dev(v), Dev(v + 1)>> : v \in 1..(NV - 1)} \cup {<<Stab(v), Dev(v)>> : v \in StabV}
+InclPairs == {x \in {<<Dev(v), Dev(u)>> : v \in 1..NV, u \in 1..NV} :
+                 /\ x[1][2] < x[2][2] /\ IsLive(x[1]) /\ IsLive(x[2])
+                 /\ ~ \E m \in (x[1][2] + 1)..(x[2][2] - 1) : IsLive(Dev(m))}
+             \cup {<<Stab(v), Dev(v)>> : v \in StabV}
 InclS == \A x \in InclPairs :
            (BN(x[1]) \in DOMAIN refs /\ BN(x[2]) \in DOMAIN refs) => Leq(G, refs[BN(x[1])], refs[BN(x[2])])
 C01_Incl == Idle => InclS
 UserCommitsOf(p) == {c \in 1..G.n : G.lab[c] = "user" /\ SrcN(p) \in DOMAIN refs /\ Leq(G, c, refs[SrcN(p)])
                                     /\ ~ \E b \in Branches : FALSE}
 C02_AllOrNone ==
-  \A p \in 1..NP : (pr[p].st # "none" /\ SrcN(p) \in DOMAIN refs) =>
+  \A p \in 1..NP : (pr[p].st # "none" /\ SrcN(p) \in DOMAIN refs /\ IsLive(pr[p].dst)) =>
      LET c == refs[SrcN(p)]
          T == Targets(pr[p].dst)
          on(b) == BN(b) \in DOMAIN refs /\ Leq(G, c, refs[BN(b)])
@@ -780,7 +830,7 @@ C12_Held == [][\A p \in 1..NP : (HeldS(p) /\ (pr[p].wait => pr'[p].wait) /\ pr[p
 \* a queue entry leaves the queue only by being merged into its destination, or by a queue reset job
 JobKindNow == IF Atomic THEN (IF last'[1] = "job" THEN last'[2] ELSE "") ELSE job.kind
 C20_EntryFate == [][~ Faults => \A n \in DOMAIN refs : (Kind(n) = "qw" /\ n \notin DOMAIN refs') =>
-                      \/ JobKindNow \in {"RebuildQueues", "DeleteQueues"}
+                      \/ JobKindNow \in {"RebuildQueues", "DeleteQueues", "CreateBranch"}
                       \/ BN(BranchOf(n)) \in DOMAIN refs' /\ Leq(G', refs[n], refs'[BN(BranchOf(n))])]_vars
 JobStatusNow == IF Atomic THEN (IF last'[1] = "job" THEN last'[4] ELSE "") ELSE (IF job.on /\ job'.on /\ job'.tp = job.tp THEN job.status ELSE "")
 JobArgNow == IF Atomic THEN last'[3] ELSE job.arg
@@ -791,7 +841,7 @@ JobPrNow == IF JobKindNow = "EvalChild" THEN JobArgNow[1] ELSE JobArgNow
 \* disappears with the integration branch: behaviour of the code, recorded in DESIGN.md as an observation)
 ReachFrom(g, r, c) == \E n \in DOMAIN r : c \in g.anc[r[n]]
 C15_ManualKept == [][\A c \in 1..G.n : (G.lab[c] = "manual" /\ ReachFrom(G, refs, c) /\ ~ ReachFrom(G', refs', c)) =>
-                       \/ JobKindNow \in {"RebuildQueues", "DeleteQueues"}
+                       \/ JobKindNow \in {"RebuildQueues", "DeleteQueues", "CreateBranch"}
                        \/ \E p \in 1..NP : /\ (pr[p].st = "declined" \/ cmd[p] = "force_reset" \/ JobStatusNow \in {"Merged", "SuccessMessage", "PartialMerge"})
                                             /\ \E n \in DOMAIN refs : Kind(n) = "w" /\ n[2] = p /\ c \in G.anc[refs[n]]]_vars
 \* reset / force_reset touch only the integration branches and integration pull requests of their own pull request
@@ -806,6 +856,12 @@ C10_CmdConsumed == [][\A p \in 1..NP :
                         (/\ IF Atomic THEN last'[1] = "job" ELSE job.on /\ ~ job'.on
                          /\ (IF Atomic THEN last'[4] ELSE job.status) \in {"ResetComplete", "LossyResetWarning"}
                          /\ JobKindNow \in {"EvalPR", "EvalChild"} /\ JobPrNow = p) => cmd'[p] = ""]_vars
-C19_Children == \A x \in child : pr[x[1]].st # "none" /\ \E j \in 2..Len(Targets(pr[x[1]].dst)) : Targets(pr[x[1]].dst)[j] = x[2]
+\* a destination branch disappears only by the delete_branch job, which refuses while the version has queued
+\* pull requests and leaves an archive tag on the deleted tip
+C20_DestDel == [][\A b \in Branches : (BN(b) \in DOMAIN refs /\ BN(b) \notin DOMAIN refs') =>
+                    /\ JobKindNow = "DeleteBranch"
+                    /\ ~ \E p \in 1..NP : QWN(p, b) \in DOMAIN refs
+                    /\ TagN(b) \in DOMAIN refs' /\ refs'[TagN(b)] = refs[BN(b)]]_vars
+C19_Children == \A x \in child : (IsLive(x[2]) /\ IsLive(pr[x[1]].dst)) => pr[x[1]].st # "none" /\ \E j \in 2..Len(Targets(pr[x[1]].dst)) : Targets(pr[x[1]].dst)[j] = x[2]
 TypeOK == G.n >= NBase
 =============================================================================
